@@ -258,8 +258,9 @@ struct Driver {
 			int kk, dest;
 			if (!pickReq(p, VH_KINDMASK, kk, dest)) continue;
 			const int id = p.newId();
-			log.tag('q'); log.i(kk); log.i(dest); log.i(id); log.i(-1); log.nl();
-			issueReq(*in.m, kk, dest, id);
+			const bool np = p.chance(p.k.pNoPayload);
+			log.tag('q'); log.i(kk); log.i(dest); log.i(id); log.i(-1); log.i(np); log.nl();
+			issueReq(*in.m, kk, dest, id, np);
 		}
 	}
 
@@ -289,7 +290,7 @@ int main(int argc, char** argv) {
 		else if (key == "watchdog") watchdog = v;
 		else if (key == "threads") threads = (int)v;
 		KN(pIssue); KN(pGuardCancel); KN(pGuardIssue); KN(pConsume); KN(pSucceed); KN(pFail); KN(pHeadStatus); KN(pPropagate); KN(pPlanInCb);
-		KN(kinds); KN(structDump); KN(logAnswers); KN(planDump); KN(maxBatch); KN(wfEvery); KN(palette); KN(zeroUtil); KN(pendq);
+		KN(kinds); KN(pNoPayload); KN(structDump); KN(logAnswers); KN(planDump); KN(maxBatch); KN(wfEvery); KN(palette); KN(zeroUtil); KN(pendq);
 		DR(wUpdate); DR(wReact); DR(wQuery); DR(wImmediate); DR(wReset); DR(wExitEnter); DR(wSaveLoad); DR(wPlanEdit); DR(wExtStatus); DR(wRecreate);
 		DR(replica); DR(useLogger); DR(verboseMethods); DR(fillByte); DR(addrOffset); DR(copies);
 		else { fprintf(stderr, "unknown key %s\n", key.c_str()); return 2; }
